@@ -302,6 +302,36 @@ int main(int argc, char** argv) {
   t11.chunk = 8192;
   t11.rule = "for every biased exponent 0..2046 and 1024 significands (j * 0x9E3779B97F4A7C15 mod 2^52, j = 1..1024): SetDouble, Dump(), Parse: the document is a double with the same bits, and the text has at most 17 significant digits";
   fams.push_back(t11);
+  // TL: LONG strings made of a plain head of h bytes and a run of r bytes that need escaping (a serialiser may
+  // reserve the head and the expanding part separately): r swept from 0 to h in 24 steps +-1, three kinds of run
+  static std::vector<std::pair<unsigned, unsigned>> TLhr;
+  if (TLhr.empty()) {
+    for (unsigned h : {1000u, 3000u, 4064u, 4096u, 5000u, 8192u, 16384u})
+      for (unsigned j = 0; j <= 24; j++)
+        for (int d = -1; d <= 1; d++) {
+          long r = (long)h * j / 24 + d;
+          if (r >= 0) TLhr.push_back({h, (unsigned)r});
+        }
+    for (unsigned j : {0u, 2u, 4u, 6u, 12u, 24u}) TLhr.push_back({65536u, 65536u * j / 24});
+  }
+  vr::Family tl;
+  tl.name = "TL_long_head_x_escape_run";
+  tl.count = (uint64_t)TLhr.size() * 3 * 3;
+  tl.group = "TL";
+  tl.chunk = 4;
+  tl.rule = "strings of h plain bytes (h in {1000, 3000, 4064, 4096, 5000, 8192, 16384}; 65536 at 6 ratios) followed by r bytes that need escaping, r = h*j/24 +-1 for j = 0..24; the run made of 0x01 (six-fold), of quotes (two-fold) or alternating; as root, as the last of three array elements, and with the run in FRONT of the head; all write-buffer states";
+  fams.push_back(tl);
+  // TK: nodes made through every public construction route (not only the typed setters): the TypeFlag constructor
+  // for every flag (a signed-kind node holding 0, a real-kind node holding 0.0, empty containers / strings without
+  // storage), typed constructors and setters with zero / non-negative / negative values
+  static const unsigned TK_N = 30;
+  vr::Family tk;
+  tk.name = "TK_construction_routes";
+  tk.count = (uint64_t)TK_N * TK_N;
+  tk.group = "TK";
+  tk.chunk = 16;
+  tk.rule = "all ordered pairs of 30 construction routes (Node(TypeFlag) for the 13 flag names, default, bool, int / unsigned / int64 / uint64 constructors and setters with 0, positive and negative values, float / double with +-0.0, strings by view / copy / empty) as [x,y], {\"k\":x,\"m\":y} and, on the diagonal, as root: exact canonical text in every write-buffer state, accepted back";
+  fams.push_back(tk);
   // T10: the reservation made before each string must hold at EVERY fill level: documents in which many container
   // closes directly follow a string (nothing but strings and closes in between), serialised into a buffer of every
   // initial capacity, so that the buffer runs full at every point of the walk (exact-size reallocs under ASan)
@@ -746,6 +776,113 @@ int main(int argc, char** argv) {
         v.o.emplace_back(s, ref::Value::mkS(s));
         v.o.emplace_back("z", ref::Value::mk(ref::Null));
         check_doc(d, v, ctx, desc + " (object key and value)");
+      }
+      return;
+    }
+    if (nm[1] == 'L') {
+      unsigned shape = (unsigned)(idx % 3);
+      idx /= 3;
+      unsigned kind = (unsigned)(idx % 3);
+      auto hr = TLhr[idx / 3];
+      std::string head(hr.first, 'a'), run;
+      for (unsigned i = 0; i < hr.second; i++) run.push_back(kind == 0 ? '\x01' : kind == 1 ? '"' : (i % 2 ? '\x1f' : '\\'));
+      std::string str = shape == 2 ? run + head : head + run;
+      std::string desc = "string of " + std::to_string(hr.first) + " plain bytes and " + std::to_string(hr.second) + " bytes to escape (kind " + std::to_string(kind) + ", shape " + std::to_string(shape) + ")";
+      if (ctx.want_sample) ctx.sample(desc);
+      ctx.nontriv();
+      Document d;
+      if (shape == 1) {
+        d.SetArray();
+        d.PushBack(Node(1), d.GetAllocator());
+        d.PushBack(Node("k"), d.GetAllocator());
+        Node n;
+        n.SetString(str, d.GetAllocator());
+        d.PushBack(std::move(n), d.GetAllocator());
+        ref::Value v = ref::Value::mk(ref::Arr);
+        v.a = {ref::Value::mkU(1), ref::Value::mkS("k"), ref::Value::mkS(str)};
+        check_doc(d, v, ctx, desc);
+      } else {
+        d.SetString(str, d.GetAllocator());
+        check_doc(d, ref::Value::mkS(str), ctx, desc);
+      }
+      return;
+    }
+    if (nm[1] == 'K') {
+      unsigned ia = (unsigned)(idx / TK_N), ib = (unsigned)(idx % TK_N);
+      ctx.nontriv();
+      // route r -> (node, canonical text)
+      auto make = [&](unsigned r, Node& n, Document::Allocator& a) -> std::string {
+        switch (r) {
+          case 0: n = Node(kNull); return "null";
+          case 1: n = Node(kFalse); return "false";
+          case 2: n = Node(kTrue); return "true";
+          case 3: n = Node(kBool); return "false";
+          case 4: n = Node(kNumber); return "0";
+          case 5: n = Node(kUint); return "0";
+          case 6: n = Node(kSint); return "0";
+          case 7: n = Node(kReal); return "0.0";
+          case 8: n = Node(kString); return "\"\"";
+          case 9: n = Node(kStringCopy); return "\"\"";
+          case 10: n = Node(kStringConst); return "\"\"";
+          case 11: n = Node(kObject); return "{}";
+          case 12: n = Node(kArray); return "[]";
+          case 13: n = Node(); return "null";
+          case 14: n = Node(false); return "false";
+          case 15: n = Node(0); return "0";
+          case 16: n = Node(-1); return "-1";
+          case 17: n = Node((int64_t)0); return "0";
+          case 18: n = Node((int64_t)INT64_MIN); return "-9223372036854775808";
+          case 19: n = Node((uint64_t)0); return "0";
+          case 20: n.SetInt64(0); return "0";
+          case 21: n.SetInt64(7); return "7";
+          case 22: n.SetInt64(-7); return "-7";
+          case 23: n.SetUint64(UINT64_MAX); return "18446744073709551615";
+          case 24: n = Node(0.0); return "0.0";
+          case 25: n = Node(-0.0); return "-0.0";
+          case 26: n = Node(1.5f); return "1.5";
+          case 27: n.SetString("x\n"); return "\"x\\n\"";
+          case 28: n.SetString(std::string("y"), a); return "\"y\"";
+          default: n.SetString(StringView()); return "\"\"";
+        }
+      };
+      std::string desc = "construction routes " + std::to_string(ia) + ", " + std::to_string(ib);
+      if (ctx.want_sample) ctx.sample(desc);
+      auto judge = [&](const Document& d, const std::string& want, const char* shape) {
+        ctx.eval();
+        std::string out;
+        SonicError err;
+        if (!serialize_all_states(d, out, ctx, desc + shape, &err)) {
+          ctx.violation("serialize_error", "ser_serialize_error", desc + shape, "Serialize failed with code %d", (int)err);
+          return;
+        }
+        if (out != want) ctx.violation("construction_route_text", "ser_construction_route_text", desc + shape, "Serialize gives %s, expected %s", out.c_str(), want.c_str());
+        if (d.Dump() != out) ctx.violation("dump_differs", "ser_dump_differs", desc + shape, "Dump() differs from Serialize()");
+        Document back;
+        back.Parse(out);
+        if (back.HasParseError() || back.Dump() != out) ctx.violation("reparse_fails", "ser_reparse_fails", desc + shape, "the library does not read %s back to the same text", out.c_str());
+      };
+      {
+        Document d;
+        d.SetArray();
+        Node x, y;
+        std::string tx = make(ia, x, d.GetAllocator()), ty = make(ib, y, d.GetAllocator());
+        d.PushBack(std::move(x), d.GetAllocator());
+        d.PushBack(std::move(y), d.GetAllocator());
+        judge(d, "[" + tx + "," + ty + "]", " (array)");
+      }
+      {
+        Document d;
+        d.SetObject();
+        Node x, y;
+        std::string tx = make(ia, x, d.GetAllocator()), ty = make(ib, y, d.GetAllocator());
+        d.AddMember("k", std::move(x), d.GetAllocator());
+        d.AddMember("m", std::move(y), d.GetAllocator());
+        judge(d, "{\"k\":" + tx + ",\"m\":" + ty + "}", " (object)");
+      }
+      if (ia == ib) {
+        Document d;
+        std::string tx = make(ia, d, d.GetAllocator());
+        judge(d, tx, " (root)");
       }
       return;
     }
